@@ -346,7 +346,7 @@ pub proof fn lemma_transitive(a: Value, b: Value, c: Value)
 
 SPEC = r"""
     ensures
-        cmp_of(r) == veq(*lhs, *rhs), // [C10_C16:structural_equality_depends_only_on_shape_and_contents_and_a_type_mismatch_inside_is_an_error_naming_both_types_in_operand_order]
+        cmp_of(r) == veq(*lhs, *rhs), // [C10_C16_C19:structural_equality_depends_only_on_shape_and_contents_and_a_type_mismatch_inside_is_an_error_naming_both_types_in_operand_order]
 """
 OP_TEXT = r"""
 // the source symbol of every binary operator (the property's operator list)
@@ -414,7 +414,7 @@ def build(read):
         1: {"header": """                invariant
                     i <= lock_deref!(xs)@.len(),
                     lock_deref!(xs)@.len() == lock_deref!(ys)@.len(),
-                    veq_list(lock_deref!(xs), lock_deref!(ys)@, 0) == veq_list(lock_deref!(xs), lock_deref!(ys)@, i as int), // [C10_C16:every_pair_of_elements_is_compared_in_order_and_the_first_difference_or_mismatch_decides]
+                    veq_list(lock_deref!(xs), lock_deref!(ys)@, 0) == veq_list(lock_deref!(xs), lock_deref!(ys)@, i as int), // [C10_C16_C19:every_pair_of_elements_is_compared_in_order_and_the_first_difference_or_mismatch_decides]
                 decreases lock_deref!(xs)@.len() - i"""},
         2: {"before": "let ghost es = entries_of_spec(lock_deref!(xs));\n            let ghost mut gi: int = 0;",
             "header": """                invariant
@@ -422,7 +422,7 @@ def build(read):
                     __ite.remaining().len() == entries(lock_deref!(xs)@).len() - gi,
                     forall|j: int| 0 <= j < __ite.remaining().len() ==> (#[trigger] __ite.remaining()[j]).0@ == entries(lock_deref!(xs)@)[gi + j].0
                         && *__ite.remaining()[j].1 == entries(lock_deref!(xs)@)[gi + j].1,
-                    veq_obj(lock_deref!(xs), lock_deref!(ys)@, 0) == veq_obj(lock_deref!(xs), lock_deref!(ys)@, gi), // [C10_C16:every_property_is_looked_up_by_key_in_the_other_object_and_compared]
+                    veq_obj(lock_deref!(xs), lock_deref!(ys)@, 0) == veq_obj(lock_deref!(xs), lock_deref!(ys)@, gi), // [C10_C16_C19:every_property_is_looked_up_by_key_in_the_other_object_and_compared]
                 ensures
                     gi == entries(lock_deref!(xs)@).len(),
                 decreases entries(lock_deref!(xs)@).len() - gi"""},
